@@ -43,6 +43,8 @@ def configs(tier, seed):
 def gen_workload(r, lag, nm=None):
   nm = nm or r.randint(1, 4)
   metrics = ['s%d' % i for i in range(nm)]
+  if r.random() < 0.15:
+    metrics[r.randrange(nm)] = ''      # the pickle listener accepts a series whose name is the empty string
   ops = []
   n = r.randint(2, 8)
   for i in range(n):
